@@ -38,7 +38,7 @@ ASSUMPTIONS = [
 ]
 SHARDS = {"quick": 12, "thorough": 14}
 FLOORS = {"quick": {"scripted_calls": 1500, "calls_after_a_failed_call": 500, "late_completions_delivered": 100,
-                    "iterator_failures": 150, "timeouts_expected": 60, "real_backend_calls": 80, "clogged_failure_cycles": 16, "clog_exception_kinds": 12, "transport_failures": 8},
+                    "iterator_failures": 150, "timeouts_expected": 60, "real_backend_calls": 80, "clogged_failure_cycles": 16, "clog_exception_kinds": 12, "transport_failures": 8, "callbacks_of_an_aborted_call_resumed_during_the_next_call": 25},
           "thorough": {"scripted_calls": 30000, "calls_after_a_failed_call": 10000, "late_completions_delivered": 2000,
                        "iterator_failures": 3000, "timeouts_expected": 1200, "real_backend_calls": 1200, "clogged_failure_cycles": 200, "clog_exception_kinds": 16}}
 
@@ -62,6 +62,8 @@ def cases(tier, seed):
         yield dict(kind="real", i=i)
     for i in range(16 if tier == "quick" else 160):
         yield dict(kind="clog", i=i)
+    for i in range(40 if tier == "quick" else 800):
+        yield dict(kind="parked", i=i)
 
 
 def gen_history(rng, with_timeout):
@@ -166,7 +168,126 @@ def run_case(case, ctx):
         return run_real(case, ctx)
     if case["kind"] == "clog":
         return run_clog(case, ctx)
+    if case["kind"] == "parked":
+        th = threading.Thread(target=run_parked, args=(case, ctx), daemon=True)
+        th.start()
+        th.join(120)
+        if th.is_alive():
+            ctx.inconclusive("parked-scenario-watchdog", case)
+        return
     run_scripted(case["i"], ctx)
+
+
+def run_parked(case, ctx):
+    """a completion callback of call A is parked INSIDE its own processing - in backend.batch_completed, which joblib calls
+    between registering the batch's result and accounting the completion - while another task of A fails, A raises and the
+    same object is called again (B); the parked callback then resumes in the middle of B"""
+    from joblib import Parallel, delayed
+    from vlib.scripted_backend import ScriptedBackend, Src, Trace
+
+    rng = harness.rng_for(ctx.seed, ID, "parked", case["i"])
+    J = rng.choice([2, 3])
+    b = rng.choice([1, 1, 2])
+    ra = rng.choice(["list", "generator", "generator_unordered"])
+    managed = rng.random() < 0.5
+    trace = Trace()
+    be = ScriptedBackend(trace=trace)
+    p = Parallel(n_jobs=J, backend=be, batch_size=b, pre_dispatch=rng.choice(["2*n_jobs", "all", "n_jobs"]), return_as=ra)
+    desc = dict(scenario="callback-parked-across-two-calls", J=J, b=b, ra=ra, managed=managed)
+    parked, release = threading.Event(), threading.Event()
+    state = {"armed": True}
+
+    def hook(backend, batch_size):
+        if state["armed"]:
+            state["armed"] = False
+            parked.set()
+            release.wait(30)
+
+    be.on_batch_completed = hook
+    NA, NB = rng.choice([6, 9]), rng.choice([3, 5, 8])
+    fail_at = rng.randrange(b, NA)          # not in the first batch (the one whose callback is parked)
+    tagA, tagB = f"p{case['i']}A", f"p{case['i']}B"
+    resA, resB = {}, {}
+
+    def call(tag, n, fail, res):
+        try:
+            res["out"] = list(p(Src(n, lambda i: delayed(task)(i, tag, "Boom" if i == fail else False), trace, widen=0)))
+        except BaseException as e:  # noqa
+            res["exc"] = e
+
+    ctx.evaluated()
+    ctx.count("scripted_calls", 2)
+
+    def body():
+        ta = threading.Thread(target=call, args=(tagA, NA, fail_at, resA), daemon=True)
+        ta.start()
+        if not be.wait_pending(2, timeout=10):
+            ctx.inconclusive("parked:not-enough-batches", desc)
+            return
+        pend = be.pending_snapshot()
+        first = pend[0]
+        be.complete(first, thread=True, wait=False)          # its callback parks inside batch_completed
+        if not parked.wait(10):
+            ctx.inconclusive("parked:hook-not-reached", desc)
+            return
+        # the batch holding the failing task completes: A aborts and raises
+        for _ in range(200):
+            if not ta.is_alive():
+                break
+            cand = [f for f in be.pending_snapshot() if f is not first]
+            failing = [f for f in cand if fail_at in f.items]
+            if failing or cand:
+                be.complete((failing or cand)[0], thread=True, wait=True, timeout=10)
+            else:
+                time.sleep(0.01)
+        ta.join(10)
+        if ta.is_alive() or not isinstance(resA.get("exc"), Boom):
+            if ta.is_alive():
+                ctx.inconclusive("parked:first-call-did-not-end", desc)
+            else:
+                ctx.violation("task-failure:wrong-exception", f"call A with failing task {fail_at} gave {str(resA)[:200]}; {desc}", desc)
+            return
+        # the same object is called again while A's callback is still parked
+        tb = threading.Thread(target=call, args=(tagB, NB, None, resB), daemon=True)
+        tb.start()
+        be.wait_pending(1, timeout=10)
+        release.set()
+        first.cb_returned.wait(10)
+        ctx.count("callbacks_of_an_aborted_call_resumed_during_the_next_call")
+        for _ in range(400):
+            if not tb.is_alive():
+                break
+            futs = be.pending_snapshot()
+            if futs:
+                be.complete(rng.choice(futs), thread=True, wait=True, timeout=10)
+                time.sleep(0.03)        # the caller polls every 10 ms: let it look at its counters between two completions
+            else:
+                time.sleep(0.005)
+        tb.join(10)
+        if tb.is_alive():
+            ctx.violation("nontermination:next-call-after-failure", f"call B did not end after all its batches completed; {desc}", desc)
+            return
+        got = resB.get("out")
+        want = [(tagB, i) for i in range(NB)]
+        if ra == "generator_unordered" and got is not None:
+            got = sorted(got)
+        if got != want:
+            e = resB.get("exc")
+            ctx.violation("ok-call:disturbed-by-a-callback-of-the-aborted-call", f"call B (ok, n={NB}) made while a completion callback of the aborted call A was still being processed "
+                                                                                  f"returned/raised {type(e).__name__ + str(e.args)[:120] if e is not None else str(resB.get('out'))[:160]}; {desc}", desc)
+        ctx.sig(("parked", J, b, ra, managed, NA, NB, fail_at))
+
+    try:
+        if managed:
+            with p:
+                body()
+        else:
+            body()
+    except BaseException as e:  # noqa
+        ctx.violation("history-raised", f"{type(e).__name__}: {e} outside any call; {desc}", desc)
+    finally:
+        release.set()
+        be.on_batch_completed = None
 
 
 def run_scripted(sid, ctx):
